@@ -287,6 +287,14 @@ def clamp_index(i, ln):
 
 
 def seq_slice(s, lo, hi):
+    r = _seq_slice(s, lo, hi)
+    t = getattr(s, 'tag', None)
+    if t is not None and isinstance(r, SSeq):
+        r.tag = t
+    return r
+
+
+def _seq_slice(s, lo, hi):
     if isinstance(s, str) and (lo is None or isinstance(lo, int)) and \
             (hi is None or isinstance(hi, int)):
         return s[lo:hi]
